@@ -35,7 +35,23 @@ func vCheckClosure(c *JApiCore) {
 			vAssert(in.Protocol == catalog.HTTP, "c05-http-protocol")
 			tags = in.Tags
 			// path variables exactly when the path has {parameters}
-			vAssert((in.PathVariables != nil) == (len(vPathParams(string(in.PathVal))) > 0), "c05-path-variables-vs-path-parameters")
+			want := vPathParams(string(in.PathVal))
+			vAssert((in.PathVariables != nil) == (len(want) > 0), "c05-path-variables-vs-path-parameters")
+			if in.PathVariables != nil {
+				// the pathVariables schema has exactly the {parameters} of the path as properties
+				ast, err := in.PathVariables.Schema.GetAST()
+				vAssert(err == nil, "c05-path-variables-schema-has-no-ast")
+				vAssert(len(ast.Children) == len(want), "c05-path-variables-count-differs-from-path-parameters")
+				for _, w := range want {
+					found := false
+					for _, ch := range ast.Children {
+						if ch.Key == w {
+							found = true
+						}
+					}
+					vAssert(found, "c05-path-parameter-without-path-variable")
+				}
+			}
 			for _, r := range in.Responses {
 				vAssert(len(r.Code) == 3 && r.Code[0] >= '1' && r.Code[0] <= '5' && r.Code[1] >= '0' && r.Code[1] <= '9' && r.Code[2] >= '0' && r.Code[2] <= '9', "c05-response-code-range")
 				vAssert(r.Body != nil, "c05-response-without-body")
@@ -119,20 +135,22 @@ func vCheckClosure(c *JApiCore) {
 func HTagsModel() {
 	names := []string{"@a", "@b", "@zz"} // @zz is not declared
 	pick := func(id string) string { return names[vInt(id, 0, 2)] }
-	tagsLine := func(id, indent string) string {
-		switch vInt(id+"n", 0, 2) {
+	tagsLine := func(id, indent string, max int) string {
+		switch vInt(id+"n", 0, max) {
 		case 0:
 			return ""
 		case 1:
 			return indent + "Tags " + pick(id+"0") + "\n"
+		case 2:
+			return indent + "Tags " + pick(id+"0") + " " + pick(id+"1") + "\n"
 		}
-		return indent + "Tags " + pick(id+"0") + " " + pick(id+"1") + "\n"
+		return indent + "Tags " + pick(id+"0") + " " + pick(id+"1") + " " + pick(id+"2") + "\n"
 	}
 	doc := "JSIGHT 0.3\nTAG @a\nTAG @b\n" +
-		"URL /u/{id}\n" + tagsLine("u", "  ") +
-		"  GET\n" + tagsLine("g", "    ") + "    200 any\n" +
+		"URL /u/{id}\n" + tagsLine("u", "  ", 2) +
+		"  GET\n" + tagsLine("g", "    ", 3) + "    200 any\n" +
 		"  POST\n    200 any\n" +
-		"URL /rpc\n  Protocol json-rpc-2.0\n  Method m\n" + tagsLine("m", "    ") + "    Params\n    {}\n"
+		"URL /rpc\n  Protocol json-rpc-2.0\n  Method m\n" + tagsLine("m", "    ", 1) + "    Params\n    {}\n"
 	c, je := vBuildText(doc)
 	usesUndeclared := strings.Contains(doc, "@zz")
 	if usesUndeclared {
@@ -173,3 +191,58 @@ func init() {
 	vRegister("HTagsModel", HTagsModel)
 	vRegister("HClosureHole", HClosureHole)
 }
+
+// HPathVarsModel (C05): path variables declared on different levels. URL /c/{id}
+// with an optional URL-level Path describing {id}; a method under it with an
+// optional own Path; a stand-alone method on a longer path sharing the prefix
+// (optional Path describing its extra parameter, or both, or none) — all choices
+// symbolic; accepted documents must have pathVariables == {parameters} for every interaction.
+func HPathVarsModel() {
+	urlPath, getPath, farPath := vBool("urlPath"), vBool("getPath"), vInt("farPath", 0, 3)
+	order := vBool("farFirst")
+	url := "URL /c/{id}\n"
+	if urlPath {
+		url += "  Path\n  {\n    \"id\": 1\n  }\n"
+	}
+	url += "  GET\n"
+	if getPath && !urlPath {
+		url += "    Path\n    {\n      \"id\": 2\n    }\n"
+	}
+	url += "    200 any\n  PUT\n    200 any\n"
+	far := "GET /c/{id}/f/{fid}\n"
+	switch farPath {
+	case 1:
+		far += "  Path\n  {\n    \"fid\": 3\n  }\n"
+	case 2:
+		if !urlPath && !getPath {
+			far += "  Path\n  {\n    \"id\": 4,\n    \"fid\": 3\n  }\n"
+		}
+	case 3:
+		far += "  Path\n  {\n    \"fid\": \"s\" // {type: \"string\"}\n  }\n"
+	}
+	far += "  200 any\n"
+	hdrOnly := vBool("hdrOnly") // a response that has Headers but no body must not reach the catalog
+	if hdrOnly {
+		far += "  404\n    Headers\n    {\n      \"h\": \"v\"\n    }\n"
+	}
+	doc := "JSIGHT 0.3\n"
+	if order {
+		doc += far + url
+	} else {
+		doc += url + far
+	}
+	c, je := vBuildText(doc)
+	if hdrOnly {
+		vAssert(je != nil, "c05-response-without-body-accepted")
+	}
+	if je != nil {
+		vReach("rejected")
+		vObserve("err", je.Msg)
+		return
+	}
+	vCheckClosure(c)
+	vReach("closed")
+	vObserve("ok")
+}
+
+func init() { vRegister("HPathVarsModel", HPathVarsModel) }
